@@ -399,7 +399,7 @@ fn execute_selrace(c: &DCfg, seed: u64, n: usize) -> W {
     let delivered: Arc<std::sync::Mutex<Vec<(u8, u32)>>> = Arc::new(std::sync::Mutex::new(Vec::new()));
     let d2 = delivered.clone();
     let sub = rs_store::SelectorSubscriber::new(SelSelector, move |v: u8, a: Act| d2.lock().unwrap().push((v, a.id)));
-    let rounds = if cfg!(miri) { 5 } else { 300 };
+    let rounds = if cfg!(miri) { 5 } else { 120 };
     let arrived = std::sync::atomic::AtomicUsize::new(0);
     std::thread::scope(|sc| {
         for t in 0..n {
@@ -1196,7 +1196,7 @@ pub fn c16(h: &Hist, s: u8, v: &mut Verdicts) {
     let marks: Vec<&Ev> = h.evs.iter().filter(|e| e.k == K::Mark && e.idx == MARK_SELRACE).collect();
     if !marks.is_empty() {
         v.evaluated.insert("C16");
-        let rounds = if cfg!(miri) { 5 } else { 300 };
+        let rounds = if cfg!(miri) { 5 } else { 120 };
         for m in marks {
             let how = if m.store == 0 { "in lock step (one new value per round)" } else { "each at its own pace" };
             if m.store == 2 {
